@@ -105,12 +105,15 @@ def component_coverage(check: Check, repo) -> None:
 
 def run(tier: str) -> Check:
     check = Check("C05", tier, EXPLANATION)
-    check.rules = ["TERM", "RAISE", "R1", "R2", "COVER", "K2"]
+    check.rules = ["TERM", "RAISE", "R1", "R2", "COVER", "K2", "REP-INVARIANT"]
     check.assumptions = [
-        "Stack.snapshot/restore/drop_snapshot return the snapshot's contents (C09: the delta encoding is outside static reach)",
+        "Stack.snapshot/restore/drop_snapshot return the snapshot's contents: decided by REP-INVARIANT (sa/stackmodel.py) on its finite abstraction",
         "a failed terminal may leave position/stack dirty: every caller propagates the failure or restores (R2)",
     ]
     repo, _ = fill(check, tier, floors={"parse_paths": 100, "skeleton_paths": 100})
     component_coverage(check, repo)
+    from .c09 import rep_invariant
+
+    rep_invariant(check, repo, tier)  # restore() hands back exactly the snapshot (shared with C09)
     check.floor("coverage_components", 12)
     return check
